@@ -11,12 +11,15 @@ PID = "C12"
 FAST = 1
 
 
-def cexpr(rng, v, depth=2):
-    """A constant expression (text) whose value is v (no overflow, no invalid operand on the way)."""
+def cexpr(rng, v, depth=2, leaf=None):
+    """A constant expression (text) whose value is v (no overflow, no invalid operand on the way).
+    `leaf(v)` may render a leaf differently (e.g. as an external variable that holds v)."""
     if depth <= 0 or rng.random() < 0.2:
+        if leaf is not None:
+            return leaf(v)
         return "%d" % v if v >= 0 else "(-%d)" % -v
-    op = rng.choice(["+", "-", "*", "\\", "%", "&", "|", "^", "<<", ">>", "~", "neg", "+", "-"])
-    sub = lambda x: cexpr(rng, x, depth - 1)
+    op = rng.choice(["+", "-", "*", "\\", "%", "&", "|", "^", "<<", ">>", ">>", "~", "neg", "+", "-"])
+    sub = lambda x: cexpr(rng, x, depth - 1, leaf)
     if op == "+":
         a = rng.randint(-20, 20)
         return "(%s + %s)" % (sub(v - a), sub(a))
@@ -59,7 +62,8 @@ def cexpr(rng, v, depth=2):
         return "(%s << %s)" % (sub(v), sub(0))
     if op == ">>":
         s = rng.choice([0, 1, 2, 4])
-        if 0 <= v < (1 << 40):
+        if -(1 << 40) < v < (1 << 40):
+            # also for negative values: >> is an arithmetic shift, at compile time and at run time
             return "(%s >> %s)" % (sub((v << s) | rng.randint(0, (1 << s) - 1)), sub(s))
         return "(%s >> %s)" % (sub(v), sub(0))
     if op == "~":
@@ -83,10 +87,10 @@ TEMPLATES = [
 def slot_values(rng, tmpl, nslots, nstr, blen):
     vals = []
     if "of them" in tmpl and tmpl.startswith("{0}"):
-        vals.append(rng.randint(1, nstr) if "%" not in tmpl else rng.choice([1, 25, 50, 100]))
+        vals.append(rng.choice([0] + list(range(1, nstr + 1)) * 2) if "%" not in tmpl else rng.choice([1, 25, 50, 100]))
         rest = nslots - 1
     elif tmpl.startswith("for {0} of"):
-        vals.append(rng.randint(1, nstr))
+        vals.append(rng.choice([0] + list(range(1, nstr + 1)) * 2))
         rest = nslots - 1
     else:
         rest = nslots
@@ -118,6 +122,7 @@ def build_case(seed_cid):
     blen = len(bufs[0])
     rules = []
     ext_defs = {}
+    mx_defs = {}
     nrules = rng.randint(2, 5)
     for k in range(nrules):
         tmpl, nslots = rng.choice(TEMPLATES)
@@ -132,12 +137,20 @@ def build_case(seed_cid):
             ext_defs[nm] = v
             names.append(nm)
         ex = tmpl.format(*names, s=s, s2=s2)
-        rules.append((k, lit, cx, ex))
+
+        def leaf(x, k=k):
+            if rng.random() < 0.5:
+                nm = "x%d_%d" % (k, len(mx_defs))
+                mx_defs[nm] = x
+                return nm
+            return "%d" % x if x >= 0 else "(-%d)" % -x
+        mx = tmpl.format(*[cexpr(rng, v, rng.randint(1, 3), leaf) for v in vals], s=s, s2=s2)
+        rules.append((k, lit, cx, ex, mx))
 
     def ruleset(form):
         out = []
-        for k, lit, cx, ex in rules:
-            c = {"lit": lit, "cx": cx, "ex": ex}[form]
+        for k, lit, cx, ex, mx in rules:
+            c = {"lit": lit, "cx": cx, "ex": ex, "mx": mx}[form]
             out.append("rule r%d {\n  strings:\n%s\n  condition:\n    %s\n}" % (k, sdecl, c))
             out.append("rule f%d {\n  strings:\n%s\n  condition:\n    (%s) or filesize < 0\n}" % (k, sdecl, c))
         return "\n".join(out) + "\n"
@@ -179,6 +192,11 @@ def build_case(seed_cid):
     lines += ["cnew 0"] + ["cdef 0 i %s %d" % (hx(nm), v) for nm, v in ext_defs.items()] + \
              ["cadd 0 - " + hx(ruleset("ex")), "crules 0 0"]
     scans("ext", "r0")
+    # the constant expressions again, with some leaves replaced by externals holding the same value: the operators now
+    # run in the VM instead of being folded by the compiler
+    lines += ["cnew 0"] + ["cdef 0 i %s %d" % (hx(nm), v) for nm, v in mx_defs.items()] + \
+             ["cadd 0 - " + hx(ruleset("mx")), "crules 0 0"]
+    scans("mx", "r0")
     # external form, defined with ANOTHER value at compile time and redefined afterwards
     wrong = {nm: v + rng.choice([1, 2, 3, 7]) for nm, v in ext_defs.items()}
     lines += ["cnew 0"] + ["cdef 0 i %s %d" % (hx(nm), v) for nm, v in wrong.items()] + \
@@ -255,7 +273,7 @@ def evaluate(chk, case, res, stats):
     m = case.meta
     if m.get("kind") == "reject":
         return evaluate_reject(chk, case, res, stats)
-    wit_base = {"strings": m["strings"], "rules(k, literal, constant-expression, external)": m["rules"],
+    wit_base = {"strings": m["strings"], "rules(k, literal, constant-expression, external, runtime-expression)": m["rules"],
                 "externals": m["ext"], "compile_time_values_in_redefinition_variants": m["wrong"], "buffers_hex": m["bufs"],
                 "script": case.script()}
     if res.status != "ok":
@@ -268,7 +286,7 @@ def evaluate(chk, case, res, stats):
         return
     cadds = res.ops("cadd")
     crs = res.ops("crules")
-    labels = ["lit", "cx", "atoms0", "atoms1", "ext", "redef"]
+    labels = ["lit", "cx", "atoms0", "atoms1", "ext", "mx", "redef"]
     comp_ok = {}
     for lab, c, r in zip(labels, cadds, crs):
         comp_ok[lab] = c["errors"] == 0 and r["rc"] == 0
@@ -302,7 +320,8 @@ def evaluate(chk, case, res, stats):
         if verd != rv:
             bad = sorted(k for k in rv if verd.get(k) != rv[k])
             key = {"lit": "fast-mode-differs", "cx": "constant-expression-differs" + ("-fast" if fast else ""),
-                   "ext": "external-differs" + ("-fast" if fast else ""), "atoms0": "atom-table-differs",
+                   "ext": "external-differs" + ("-fast" if fast else ""),
+                   "mx": "runtime-expression-differs" + ("-fast" if fast else ""), "atoms0": "atom-table-differs",
                    "atoms1": "atom-table-differs"}.get(tag, "redefined-external-ignored")
             chk.violation(key, dict(wit_base, variant=tag, fast_mode=fast, buffer=j, rules_differing=bad[:6],
                                     reference={k: rv[k] for k in bad[:6]}, got={k: verd.get(k) for k in bad[:6]}))
